@@ -110,6 +110,25 @@ func runRPC(args []string) []string {
 			key = rawKey(hx.UnHex(p[0]))
 		}
 		res = errRes(cl.AddHardCert(key, string(hx.UnHex(p[1]))))
+	case "addhardold": // the old wire format: code 31 followed by the key blob, no comment field
+		resp, err := cl.Forward(append([]byte{31}, hx.UnHex(p[0])...))
+		if err != nil {
+			res = "connerr"
+		} else {
+			res = "ok " + hx.Hex(resp)
+		}
+	case "addhardseq": // the current format with a comment, then the old format, on one connection
+		key, err := ssh.ParsePublicKey(hx.UnHex(p[0]))
+		if err != nil {
+			key = rawKey(hx.UnHex(p[0]))
+		}
+		res = errRes(cl.AddHardCert(key, string(hx.UnHex(p[1]))))
+		resp, err := cl.Forward(append([]byte{31}, hx.UnHex(p[0])...))
+		if err != nil {
+			res += ";connerr"
+		} else {
+			res += ";ok " + hx.Hex(resp)
+		}
 	case "listslots":
 		slots, err := cl.ListSlots()
 		if slots == nil {
@@ -233,6 +252,14 @@ func genRPC(g *hx.Gen, out *hx.Out) {
 	}
 	keys := rpcKeys()
 	key := keys[0]
+	// add-hardware-certificate in the old wire format, for a key and a certificate of every type
+	for i, k := range keys {
+		_, pemBytes := fixedCert()
+		emit("addhardold", hx.Hex(k), "1", "0", hx.StrList([]string{"9a"}), hx.HexS(""), hx.Hex(k), hx.Hex(pemBytes))
+		// … and after a request in the current format on the same connection: nothing of the earlier
+		// request (its comment) may reach the served agent with the later one
+		emit("addhardseq", hx.Hex(k), hx.HexS([]string{"9a", "yk", "fail:boom", "é", ""}[i%5]), hx.StrList([]string{"9a"}), hx.HexS(""), hx.Hex(k), hx.Hex(pemBytes))
+	}
 	slotFamilies := []struct {
 		tag   string
 		slots []string
@@ -255,6 +282,20 @@ func genRPC(g *hx.Gen, out *hx.Out) {
 				pk = "0"
 			}
 			emit("addhard", append([]string{hx.Hex(blob), hx.HexS(comment), pk}, setup...)...)
+			// the same certificate in the old wire format (code 31 and the bare key blob)
+			if pk == "1" || g.Bool() {
+				pk2 := "0"
+				var msg struct {
+					KeyBlob []byte `sshtype:"31"`
+					Comment string
+				}
+				if ssh.Unmarshal(append([]byte{31}, blob...), &msg) == nil {
+					if _, err := ssh.ParsePublicKey(msg.KeyBlob); err == nil {
+						pk2 = "1"
+					}
+				}
+				emit("addhardold", append([]string{hx.Hex(blob), pk, pk2}, setup...)...)
+			}
 		case 1, 2:
 			emit("listslots", append([]string{sf.tag}, setup...)...)
 		case 3:
